@@ -84,26 +84,32 @@ def gated (entry : List (Str × J)) : Bool :=
 
 /-- the `attr` rewrite of RedactMongoLog. `plan` is the plan-summary rewriter
     (Model/Plan.lean), a parameter here so that Line does not depend on it. -/
-def redactAttr (T : Tables) (cfg : Cfg) (plan : Str → Str → Str) (isGated : Bool) (attr : List (Str × J)) :
-    List (Str × J) :=
+def redactAttrWith (cd : Ctx → J → J) (T : Tables) (cfg : Cfg) (plan : Str → Str → Str) (isGated : Bool)
+    (attr : List (Str × J)) : List (Str × J) :=
   let a1 := if cfg.ips then mapKey sRemote (fun v => match v with | .str _ => .str T.ipPH | x => x) attr else attr
   let a2 :=
     if isGated then
       let eager := cfg.eager.any fun p => isPrefix p (strOrEmpty (lookup sNs a1))
       let c : Ctx := { T := T, cfg := cfg, rfn := eager }
-      let a := a1.map fun (k, v) => if cmdKeys.contains k then (k, c.cmdDoc v) else (k, v)
+      let a := a1.map fun (k, v) => if cmdKeys.contains k then (k, cd c v) else (k, v)
       if eager then mapKey sPlanSummary (fun v => match v with | .str s => .str (plan cfg.repl s) | x => x) a
       else a
     else a1
   if cfg.ns then mapKey sNs (fun v => match v with | .str s => .str (hashName cfg.repl s) | x => x) a2 else a2
 
-/-- `RedactMongoLog` on the parsed entry -/
-def redactLine (T : Tables) (cfg : Cfg) (plan : Str → Str → Str) (entry : List (Str × J)) : List (Str × J) :=
+/-- `RedactMongoLog` on the parsed entry, parametric in the command-document redactor -/
+def redactLineWith (cd : Ctx → J → J) (T : Tables) (cfg : Cfg) (plan : Str → Str → Str)
+    (entry : List (Str × J)) : List (Str × J) :=
   match lookup sAttr entry with
   | some (.obj _) =>
     mapKey sAttr (fun v => match v with
-      | .obj attr => .obj (redactAttr T cfg plan (gated entry) attr)
+      | .obj attr => .obj (redactAttrWith cd T cfg plan (gated entry) attr)
       | x => x) entry
   | _ => entry
+
+def redactAttr := redactAttrWith Ctx.cmdDoc
+
+/-- `RedactMongoLog` on the parsed entry -/
+def redactLine := redactLineWith Ctx.cmdDoc
 
 end Anonymongo
